@@ -439,7 +439,7 @@ func runRows(c *Check, module, cfg string, handler func(row *Row)) *tlcResult {
 func stdCfg(tier string, invariants ...string) string {
 	var sb strings.Builder
 	sb.WriteString("SPECIFICATION Spec\n")
-	fmt.Fprintf(&sb, "CONSTANT Tier = \"%s\"\n", tier)
+	fmt.Fprintf(&sb, "CONSTANT Tier = \"%s\"\nCONSTANT Seed = %d\n", tier, specSeed())
 	for _, inv := range invariants {
 		sb.WriteString("INVARIANT " + inv + "\n")
 	}
